@@ -147,6 +147,8 @@ impl Frontend {
     }
 
     fn node(&self) -> MutexGuard<'_, FrontendInternal> {
+        #[cfg(feature = "verif-hooks")]
+        super::verif::lock_point("frontend", &self.node);
         self.node.lock().unwrap()
     }
 
